@@ -327,6 +327,30 @@ PROVENANCES = ["be", "fortran", "strided", "readonly"]
 PROV = [None]
 
 
+# scalar-type axis: header scalars, channels and indices handed over as numpy scalars (what arithmetic on arrays and decoded
+# fields gives) or as plain python numbers - the same VALUES either way
+SCALARS = [None]
+
+
+def si(x):
+    """an integer argument"""
+    how = SCALARS[0]
+    if how == "np":
+        return np.int64(x) if x % 2 else (np.int32(x) if -2 ** 31 <= x < 2 ** 31 else np.int64(x))
+    return x
+
+
+def sf(bits):
+    """a float32-valued scalar argument given as bit pattern"""
+    v = f32(bits)[()]
+    how = SCALARS[0]
+    if how == "np":
+        return np.float64(v)
+    if how == "py":
+        return float(v)
+    return v
+
+
 def pv(a):
     how = PROV[0]
     a = np.asarray(a)
@@ -357,20 +381,20 @@ def viewport(vp, style=0):
     return CameraViewPort(o, s)
 
 
-def build(kind, v, wide=False, vpstyle=0, prov=None):
-    """abstract value -> real block object (public constructors and add-methods); prov: see PROVENANCES"""
-    PROV[0] = prov
+def build(kind, v, wide=False, vpstyle=0, prov=None, scalars=None):
+    """abstract value -> real block object (public constructors and add-methods); prov: see PROVENANCES; scalars: None | "np" | "py" """
+    PROV[0], SCALARS[0] = prov, scalars
     try:
         return _build(kind, v, wide, vpstyle)
     finally:
-        PROV[0] = None
+        PROV[0] = SCALARS[0] = None
 
 
 def _build(kind, v, wide=False, vpstyle=0):
     if kind == "data3d":
         from basictdf.tdfData3D import Data3D, Data3dBlockFormat, Flags, LinkType, MarkerTrack
         fmt, n, freq, st, vol, rot, tr, flag, links, tracks = v
-        d = Data3D(freq, n, pv(f32(vol)), pv(f32(rot).reshape(3, 3)), pv(f32(tr)), f32(st)[()], Flags(flag), Data3dBlockFormat(fmt))
+        d = Data3D(si(freq), si(n), pv(f32(vol)), pv(f32(rot).reshape(3, 3)), pv(f32(tr)), sf(st), Flags(flag), Data3dBlockFormat(fmt))
         for label, frames in tracks:
             d.add_track(MarkerTrack(text(label), pv(frames_array(frames, 3, wide))))
         if links or (fmt == 1 and len(tracks) % 2 == 1):
@@ -379,14 +403,14 @@ def _build(kind, v, wide=False, vpstyle=0):
     if kind == "emg":
         from basictdf.tdfEMG import EMG, EMGTrack
         freq, st, n, chans, tracks = v
-        d = EMG(freq, n, f32(st)[()])
+        d = EMG(si(freq), si(n), sf(st))
         for ch, (label, frames) in zip(chans, tracks):
-            d.addSignal(EMGTrack(text(label), pv(frames_array(frames, 1, wide)[:, 0])), channel=ch)
+            d.addSignal(EMGTrack(text(label), pv(frames_array(frames, 1, wide)[:, 0])), channel=si(ch))
         return d
     if kind == "force3d":
         from basictdf.tdfForce3D import ForceTorque3D, ForceTorqueTrack
         freq, st, n, vol, rot, tr, tracks = v
-        d = ForceTorque3D(freq, n, pv(f32(vol)), pv(f32(rot).reshape(3, 3)), pv(f32(tr)), f32(st)[()])
+        d = ForceTorque3D(si(freq), si(n), pv(f32(vol)), pv(f32(rot).reshape(3, 3)), pv(f32(tr)), sf(st))
         for label, frames in tracks:
             a = frames_array(frames, 9, wide)
             d.add_track(ForceTorqueTrack(text(label), pv(a[:, 0:3].copy()), pv(a[:, 3:6].copy()), pv(a[:, 6:9].copy())))
@@ -394,17 +418,17 @@ def _build(kind, v, wide=False, vpstyle=0):
     if kind == "platdata":
         from basictdf.tdfForcePlatformsData import ForcePlatformData, ForcePlatformsDataBlock
         freq, st, n, chans, plats = v
-        d = ForcePlatformsDataBlock(f32(st)[()], freq, n)
+        d = ForcePlatformsDataBlock(sf(st), si(freq), si(n))
         for ch, frames in zip(chans, plats):
             a = frames_array(frames, 6, wide)
-            d.add_platform(ForcePlatformData(pv(a[:, 0:2].copy()), pv(a[:, 2:5].copy()), pv(a[:, 5].copy())), channel=ch)
+            d.add_platform(ForcePlatformData(pv(a[:, 0:2].copy()), pv(a[:, 2:5].copy()), pv(a[:, 5].copy())), channel=si(ch))
         return d
     if kind == "platcalib":
         from basictdf.tdfForcePlatformsCalibration import ForcePlatformInfo, ForcePlatformsCalibrationDataBlock
         chans, plats = v
         d = ForcePlatformsCalibrationDataBlock()
         for ch, (label, size, pos) in zip(chans, plats):
-            d.add_platform(ForcePlatformInfo(text(label), pv(f32(size)), pv(f32(pos).reshape(4, 3))), channel=ch)
+            d.add_platform(ForcePlatformInfo(text(label), pv(f32(size)), pv(f32(pos).reshape(4, 3))), channel=si(ch))
         return d
     if kind == "data2d":
         from basictdf.tdfData2D import Data2D, Data2DFlags
@@ -416,7 +440,7 @@ def _build(kind, v, wide=False, vpstyle=0):
                     a = f32([c for p in cell for c in p]).reshape(-1, 2)
                     data[i, j] = pv(a.astype("<f8") if wide else a)
         if nc == 0:
-            d = Data2D(nc, nf, freq, f32(st)[()], Data2DFlags(flags))
+            d = Data2D(si(nc), si(nf), si(freq), sf(st), Data2DFlags(flags))
         else:
             # the camera map has no public setter: the only public way to get a block with a map is to decode one.
             # Header + map + an all-empty count table are produced here with struct; the point data then comes in
@@ -443,11 +467,11 @@ def _build(kind, v, wide=False, vpstyle=0):
         from basictdf.tdfOpticalSystem import OpticalChannelData, OpticalSetupBlock, OpticalSetupBlockFormat
         fmt, chans = v
         return OpticalSetupBlock(OpticalSetupBlockFormat(fmt),
-                                 [OpticalChannelData(idx, text(l), text(t), text(nm), viewport(vp, vpstyle)) for idx, l, t, nm, vp in chans])
+                                 [OpticalChannelData(si(idx), text(l), text(t), text(nm), viewport(vp, vpstyle)) for idx, l, t, nm, vp in chans])
     if kind == "events":
         from basictdf.tdfEvents import Event, EventsDataType, TemporalEventsData, TemporalEventsDataFormat
         fmt, st, evs = v
-        d = TemporalEventsData(TemporalEventsDataFormat(fmt), f32(st)[()])
+        d = TemporalEventsData(TemporalEventsDataFormat(fmt), sf(st))
         d.events = [Event(text(l), pv(f32(vals)), EventsDataType(k)) for l, k, vals in evs]
         return d
     raise KeyError(kind)
